@@ -13,7 +13,8 @@ class UF:
     """an arbitrary pure callable: uninterpreted in symbolic mode, a fixed smooth function in replay"""
 
     def __init__(self, ctx, tag, conc):
-        self.ctx, self.tag, self.conc, self.table, self.args = ctx, tag, conc, {}, []
+        # one table per (run, tag): two UF objects with the same tag denote the SAME function
+        self.ctx, self.tag, self.conc, self.table, self.args = ctx, tag, conc, ctx.uf_table(tag), []
 
     def __call__(self, q):
         self.args.append(q)
